@@ -54,6 +54,9 @@ func init() {
 		"vfTrackWrites": vfTrackWrites,
 		"vfSharedWrites": vfSharedWrites,
 		"vfFail":        vfFail,
+		// vfUnsupported(msg): the harness does not understand what it observes (e.g. a changed
+		// traversal): the task is not-run (check reported broken), never a verdict
+		"vfUnsupported": func(fr *frame, args []value) value { panic(Unsupported{"harness: " + strArg(args[0])}) },
 		"vfTimeouts":    vfTimeouts,
 		// vfSchedPolicy(k): which runnable goroutine continues when the current one blocks
 		// (0 oldest, 1 newest, 2 alternating, 3 fixed pseudo-random sequence)
